@@ -387,6 +387,28 @@ Print Assumptions c17_src_sinks_contained.
 Example c17_nonvacuous_sinks : sinks_witness.
 Proof. exact sinks_nonvacuous. Qed.
 
+(* ====================================================================================
+   Round 5, second pass — the callee census.  translate/c17_flow.py now reads EVERY file of the crate; in each file
+   that mentions a path / file-system word (g_closed_files) every callee name — function path, method, macro — must be
+   on the translator's reviewed list, a fn of the crate or a constructor, else the translator aborts; every call,
+   anywhere in the crate, of a callee that reaches the file system (fs::*, File::*, OpenOptions, tempfile / NamedTempFile,
+   Path::* / PathBuf::*, env::*, process / Command, SymbolFile::from_file, .exists / .is_file / .is_dir / .metadata /
+   .canonicalize / .read_dir / .persist* / .open / .create ...) is listed in g_sink_calls. *)
+(* each of them is one of the sinks whose path provenance is derived (and proved contained above) *)
+Theorem c17_src_sink_calls_covered : forall c, In c g_sink_calls -> exists k, In k g_fs_sinks /\ sink_key k = c.
+Proof. exact sink_call_is_sink. Qed.
+Print Assumptions c17_src_sink_calls_covered.
+
+(* outside the compiled builders nothing edits a path in place: every .push / .pop / .set_file_name / .set_extension /
+   .with_file_name / .with_extension / .extend / .clear ... of those files is applied to a String, to a Vec without paths, or
+   is the constructor adding its own cache root to the list of symbol directories *)
+Theorem c17_src_no_path_edits : path_edits g_path_edits = [].
+Proof. exact no_path_edits. Qed.
+Print Assumptions c17_src_no_path_edits.
+
+Example c17_nonvacuous_census : census_witness.
+Proof. exact census_nonvacuous. Qed.
+
 (* minidump-common/src/utils.rs basename (display names, the `code_file` query parameter), compiled by the same
    translator: it is the same function as leafname although it is written with rfind + a slice, and that slice
    `&f[(index + 1)..]` — the only expression of the compiled functions that could panic — is always in bounds *)
